@@ -330,46 +330,62 @@ func (w *world) opSetup(n int, id string, clean, kt bool) {
 	} else {
 		w.be.KillTimeout = time.Hour
 	}
-	before := w.dyingSet()
+	// would Setup find a live connection on the session (what backend.go:176-185 looks up)?
+	old := -1
+	if !w.snap.Closing && id != "" {
+		if st, ok := w.snap.Stored[id]; ok {
+			if st.Active != nil {
+				old = w.num[st.Active]
+			}
+		} else if ac, ok := w.snap.Active[id]; ok {
+			if ts, ok := w.snap.Temporary[ac]; ok && ts.Active != nil {
+				old = w.num[ts.Active]
+			}
+		}
+	}
 	ch := make(chan setupRes, 1)
 	go func() {
 		s, r, err := w.be.Setup(cl.c, id, clean)
 		ch <- setupRes{s, r, err}
 	}()
+	finish := func(r setupRes) {
+		if r.err == nil {
+			cl.sess, cl.hasSess = r.s, true
+			cl.c.VerifSetSession(r.s)
+			w.emit(op, "setup:"+hx.B01(r.resumed), true)
+		} else {
+			w.emit(op, errText(r.err), true)
+		}
+	}
+	if old < 0 {
+		select {
+		case r := <-ch:
+			finish(r)
+		case <-time.After(10 * time.Second):
+			w.hang(op)
+		}
+		return
+	}
+	// expected to wait for the old connection: Setup closes it (Closing fires) and then waits;
+	// if it was closing already only a moment can be given for Setup to return anyway
+	oldc := w.client(old).c
+	wasClosing := oldc.VerifIsClosing()
 	deadline := time.Now().Add(10 * time.Second)
 	for {
 		select {
 		case r := <-ch:
 			if r.err == broker.ErrKillTimeout {
-				// the wait already timed out: report the two steps
-				old := -1
-				for m := range w.dyingSet() {
-					if !before[m] {
-						old = m
-					}
-				}
 				w.pendCli, w.pendCh, w.pendOld, w.pendKT, w.pendCl, w.pendDone = cl, nil, old, kt, clean, &r
 				w.emit(op, fmt.Sprintf("wait:%d", old), true)
 				return
 			}
-			if r.err == nil {
-				cl.sess, cl.hasSess = r.s, true
-				cl.c.VerifSetSession(r.s)
-				w.emit(op, "setup:"+hx.B01(r.resumed), true)
-			} else {
-				w.emit(op, errText(r.err), true)
-			}
+			finish(r)
 			return
-		case <-time.After(200 * time.Microsecond):
+		case <-time.After(300 * time.Microsecond):
 		}
-		old := -1
-		for m := range w.dyingSet() {
-			if !before[m] {
-				old = m
-			}
-		}
-		if old >= 0 {
+		if wasClosing && time.Now().After(deadline.Add(-10*time.Second+3*time.Millisecond)) || !wasClosing && oldc.VerifIsClosing() {
 			w.pendCli, w.pendCh, w.pendOld, w.pendKT, w.pendCl, w.pendDone = cl, ch, old, kt, clean, nil
+			// the snapshot taken by emit waits for the global mutex, which Setup holds until it starts waiting
 			w.emit(op, fmt.Sprintf("wait:%d", old), true)
 			return
 		}
@@ -1005,7 +1021,7 @@ func runMB(c *hx.Ctx) {
 	famRetained(c)
 	if c.Thorough() {
 		famExhaustive(c, 4)
-		famRandom(c, 1500, 400)
+		famRandom(c, 600, 400)
 	} else {
 		famExhaustive(c, 3)
 		famRandom(c, 150, 200)
